@@ -23,3 +23,7 @@ Theorem C08_bpm_first : forall c raw n tick R,
   = Base.Prelude.Ok {| Model.Sync.b_tick := tick; Model.Sync.b_ts := 0; Model.Sync.b_bpm := bpm_of_n n; Model.Sync.b_idx := 0 |}.
 Proof. intro c. exact (Proofs.C08.C08_bpm_first c C08_bpm_float). Qed.
 Theorem C08_refuted_pinned : C08_refuted_pinned_stmt.            Proof. exact Proofs.FloatC08.C08_refuted_pinned. Qed.
+
+(** Capstone: a rendered [SyncTrack] body is dispatched to exactly the written data. *)
+From CP Require Import Spec.Render Proofs.Render.
+Theorem render_sync : render_sync_stmt.       Proof. exact Proofs.Render.render_sync. Qed.
